@@ -162,7 +162,8 @@ Definition table_vs_impl (obs : list (N * N * N)) : list (N * N * N) :=
   filter (fun x => let '(a, b, r) := x in negb (N.eqb (table_merge gen_nilness_table a b) r)) obs.
 
 (* ------------------------------------------------------------------ sparse cases *)
-Inductive sdesc := TNone | TGen (gen kill : N) | TCopyFirst.
+Inductive sdesc := TNone | TGen (gen kill : N) | TCopyFirst
+  | TLazy (gen kill : N).   (* no mapping at all while every operand is Ident, then like TGen *)
 Record scase := mkSC {
   sc_instrs : list (list nat * bool);
   sc_desc : list sdesc;
@@ -175,6 +176,8 @@ Definition sc_tself (c : scase) (i : nat) (m : nat -> N) : option N :=
   | TNone => None
   | TGen g k => Some (N.lor g (N.ldiff (fold_left (fun acc v => N.lor acc (m v)) (ops_of (sc_instrs c) i) 0%N) k))
   | TCopyFirst => match ops_of (sc_instrs c) i with [] => None | v :: _ => Some (m v) end
+  | TLazy g k => let u := fold_left (fun acc v => N.lor acc (m v)) (ops_of (sc_instrs c) i) 0%N in
+                 if N.eqb u 0 then None else Some (N.lor g (N.ldiff u k))
   end.
 Definition sc_transfer (c : scase) (i : nat) (m : nat -> N) : list (nat * N) :=
   match sc_tself c i m with Some x => [(i, x)] | None => [] end.
